@@ -326,6 +326,7 @@ func run(prop, tier string, seed uint64) int {
 				defer func() { <-semRace }()
 			}
 			from := j.from
+			hangs := 0
 			for attempt := 0; from < j.to && attempt < 6; attempt++ {
 				tag := fmt.Sprintf("%s-%d-%d", j.v.Name, j.idx, attempt)
 				logf := filepath.Join(runDir, tag+".jsonl")
@@ -345,12 +346,22 @@ func run(prop, tier string, seed uint64) int {
 					cmd.Env = append(cmd.Env, "GORACE=halt_on_error=0 log_path="+filepath.Join(runDir, "race-"+tag))
 				}
 				err := cmd.Run()
-				rs, open := readLog(logf)
+				rs, open, hung := readLog2(logf)
 				mu.Lock()
 				recs = append(recs, rs...)
 				mu.Unlock()
 				if err == nil && open < 0 {
 					return
+				}
+				if hung >= 0 && open < 0 {
+					// the child's watchdog ended that case and reported it; go on with the
+					// next one, but give up on the batch at the second hang (each costs minutes)
+					hangs++
+					if hangs >= 2 {
+						return
+					}
+					from = hung + 1
+					continue
 				}
 				// child died
 				outb, _ := os.ReadFile(outf)
@@ -425,6 +436,10 @@ func run(prop, tier string, seed uint64) int {
 			samples = append(samples, s)
 		}
 		for _, v := range r.Viols {
+			if v.Detector == "hang" && fmt.Sprint(v.Keys["kind"]) == "stalled" {
+				inconclusive = append(inconclusive, fmt.Sprintf("case %d (%s) stalled without being provably dead-locked", r.Case, r.Variant))
+				continue
+			}
 			founds = append(founds, found{v: v, rec: r, variant: r.Variant})
 		}
 		for name, dg := range r.Dig {
@@ -616,10 +631,15 @@ func firstLines(s string, n int) string {
 func indent(s string) string { return strings.ReplaceAll(s, "\n", "\n  ") }
 
 func readLog(path string) (recs []record, open int) {
-	open = -1
+	recs, open, _ = readLog2(path)
+	return
+}
+
+func readLog2(path string) (recs []record, open int, hung int) {
+	open, hung = -1, -1
 	f, err := os.Open(path)
 	if err != nil {
-		return nil, -1
+		return nil, -1, -1
 	}
 	defer f.Close()
 	sc := bufio.NewScanner(f)
@@ -635,9 +655,16 @@ func readLog(path string) (recs []record, open int) {
 		case "end":
 			open = -1
 			recs = append(recs, r)
+		case "hang":
+			// the child's own watchdog ended the case (livelock / deadlock / stalled)
+			open = -1
+			r.T = "end"
+			r.Extra = map[string]any{"hang_next": r.Case + 1}
+			recs = append(recs, r)
+			hung = r.Case
 		}
 	}
-	return recs, open
+	return recs, open, hung
 }
 
 func crashKind(out string) string {
